@@ -1,38 +1,15 @@
 #![no_main]
-//! C15 through libFuzzer: bytes 0-1 select a CRC-on corpus entry, every following pair of bytes a
-//! bit position to flip (after the 4 fixed header octets); only error classes the CRC-16 is
-//! designed to catch are judged: weight 1, 2, odd weight, or a burst of at most 16 bits.
-use libfuzzer_sys::fuzz_target;
+//! C15 through libFuzzer: see cfdp_verif::props::c15::fuzz_case for the input format; the oracle is
+//! the same CrcPart the enumerations use (rejected, or equal to the original).
 use cfdp_verif::common::Part;
-use cfdp_verif::props::c15::{corpus, CrcCase, CrcPart};
+use cfdp_verif::props::c15::{fuzz_case, CrcPart};
+use libfuzzer_sys::fuzz_target;
 
 fuzz_target!(|data: &[u8]| {
-    if data.len() < 4 {
-        return;
-    }
-    let c = corpus();
-    let e = &c[((data[0] as usize) << 8 | data[1] as usize) % c.len()];
-    let nbits = e.enc.len() as u32 * 8;
-    let span = nbits - 32;
-    let mut flips: Vec<u32> = data[2..].chunks(2).take(9).map(|p| {
-        let r = (p[0] as u32) << 8 | *p.get(1).unwrap_or(&0) as u32;
-        32 + ((r * span) >> 16)
-    }).collect();
-    flips.sort();
-    flips.dedup();
-    let w = flips.len();
-    let burst = flips.last().unwrap() - flips[0] < 16;
-    if !(w == 1 || w == 2 || w % 2 == 1 || burst) {
-        return;
-    }
-    // pairs further apart than the CRC's period are outside the designed guarantees
-    if w == 2 && flips[1] - flips[0] >= 32767 {
-        return;
-    }
-    let case = CrcCase { entry: e.name.clone(), flips, class: "fuzz".into() };
-    let out = CrcPart.run(&case);
-    if let Some(f) = out.fail {
-        eprintln!("C15-FUZZ-FAIL key={}: {}", f.key, f.msg);
-        std::process::abort();
+    if let Some(case) = fuzz_case(data) {
+        if let Some(f) = CrcPart.run(&case).fail {
+            eprintln!("C15-FUZZ-FAIL key={}: {}", f.key, f.msg);
+            std::process::abort();
+        }
     }
 });
